@@ -97,7 +97,8 @@ def mk_term(name: str):
 def replay_fs(case):
     from formulaic.formula import SimpleFormula
 
-    f = SimpleFormula([mk_term(n) for n in case["start"]])
+    mode = case["mode"]
+    f = SimpleFormula([mk_term(n) for n in case["start"]], _ordering=mode)
     last = "init"
     bad = []
     for op in case["hist"]:
@@ -126,8 +127,10 @@ def replay_fs(case):
         except Exception as e:  # noqa
             last = "EXC:" + type(e).__name__
         degs = [t.degree for t in f]
-        if degs != sorted(degs):
+        if mode == "degree" and degs != sorted(degs):
             bad.append({"why": "ordering invariant broken after " + o, "observed": [str(t) for t in f]})
+        if mode == "sort" and (list(f) != sorted(f) or any(list(t.factors) != sorted(t.factors) for t in f)):
+            bad.append({"why": "sort-ordering invariant broken after " + o, "observed": [str(t) for t in f]})
     got = [str(t) for t in f]
     if got != case["terms"]:
         bad.append({"why": "terms differ", "observed": got, "expected": case["terms"]})
@@ -135,7 +138,7 @@ def replay_fs(case):
         bad.append({"why": "result of last operation differs", "observed": last, "expected": case["last"]})
     if len(f) != len(case["terms"]):
         bad.append({"why": "len differs", "observed": len(f)})
-    return [{"container": "SimpleFormula", "start": case["start"], "hist": case["hist"], **b} for b in bad]
+    return [{"container": "SimpleFormula", "ordering": mode, "start": case["start"], "hist": case["hist"], **b} for b in bad]
 
 
 def _leg(ctx: Ctx, module: str, fn: str, maxops: int, props: str, what: str):
@@ -154,9 +157,9 @@ def _leg(ctx: Ctx, module: str, fn: str, maxops: int, props: str, what: str):
         ctx.traces += 1
         ctx.evaluations += 1
         if len(c["hist"]) >= 2:
-            ctx.nontrivial.add(jhash([module, c.get("cfg", c.get("start")), c["hist"]]))
+            ctx.nontrivial.add(jhash([module, c.get("cfg", c.get("start")), c.get("mode"), c["hist"]]))
         for b in bad:
-            ctx.violation({"container": b["container"], "hist": b["hist"]}, b, kind="replay")
+            ctx.violation({"container": b["container"], "ordering": b.get("ordering"), "start": b.get("start", b.get("cfg")), "hist": b["hist"]}, b, kind="replay")
     mid = [c for c in cases if len(c["hist"]) == maxops][:1]
     for c in mid:
         ctx.sample({module: {"history": c["hist"], "expected": c.get("items", c.get("terms"))}})
@@ -166,5 +169,5 @@ def _leg(ctx: Ctx, module: str, fn: str, maxops: int, props: str, what: str):
 def run(ctx: Ctx) -> None:
     _leg(ctx, "MC_LayeredMapping", "replay_lm", 3 if ctx.quick else 4, "INVARIANT Laws\nPROPERTY FrameLaw\n",
          "LayeredMapping: top-first merge, length/iteration/lookup consistency, source names, frame law (supplied layers never written)")
-    _leg(ctx, "MC_FormulaSeq", "replay_fs", 2 if ctx.quick else 3, "INVARIANT OrderingInvariant\nPROPERTY MultisetLaw\n",
-         "SimpleFormula as a sequence: ordering invariant and multiset law after every operation")
+    _leg(ctx, "MC_FormulaSeq", "replay_fs", 2 if ctx.quick else 3, "INVARIANT OrderingInvariant\nPROPERTY MultisetLaw\nPROPERTY ListLaw\n",
+         "SimpleFormula as a sequence under the ordering modes none/degree/sort: ordering invariant, multiset law and list law after every operation")
